@@ -44,9 +44,32 @@ fn pragma_text_is_verbatim() {
     if n >= 3 { assert!(r.as_bytes()[2] == t[2]); }
 }
 ''')
+_PRAGMA_TEXT2 = dict(_PRAGMA_TEXT, harness='pragma_text_mentioning_pragma_is_verbatim',
+                 bound='pragma lines `pragma` / `#pragma` + one ASCII byte + `pragma` + at most one ASCII byte (the body mentions the keyword again)',
+                 body='''#[cfg(kani)]
+#[kani::proof]
+#[kani::unwind(16)]
+fn pragma_text_mentioning_pragma_is_verbatim() {
+    let hash: bool = kani::any();
+    let a: u8 = kani::any();
+    let b: u8 = kani::any();
+    let n: usize = kani::any();
+    kani::assume(n <= 1);
+    kani::assume(a < 128 && b < 128);
+    let buf: [u8; 15] = if hash { [b'#', b'p', b'r', b'a', b'g', b'm', b'a', a, b'p', b'r', b'a', b'g', b'm', b'a', b] }
+                        else { [b'p', b'r', b'a', b'g', b'm', b'a', a, b'p', b'r', b'a', b'g', b'm', b'a', b, 0] };
+    let len = (if hash { 14 } else { 13 }) + n;
+    let text = unsafe { std::str::from_utf8_unchecked(&buf[..len]) };
+    let p = PragmaStatement { t: text };
+    let r = p.pragma_text();
+    assert!(r.len() == 7 + n);
+    assert!(r.as_bytes()[0] == a && r.as_bytes()[1] == b'p' && r.as_bytes()[6] == b'a');
+    if n == 1 { assert!(r.as_bytes()[7] == b); }
+}
+''')
 EXTRACTED = {
     'C03': [_PRAGMA_TEXT],
-    'C06': [_PRAGMA_TEXT],
+    'C06': [_PRAGMA_TEXT, _PRAGMA_TEXT2],
     'C01': [dict(file='crates/oq3_syntax/src/validation.rs', fn='unquote', harness='unquote_never_panics', unwind=6,
                  bound='every text of at most 3 ASCII bytes, prefix_len <= 2, end delimiter `"` or `\'`',
                  claim='validation.rs::unquote (nested in validate_literal) returns normally (no slice / char-boundary panic)',
@@ -101,7 +124,7 @@ def run_extracted(prop, scratch):
         open(os.path.join(d, 'src', 'lib.rs'), 'w').write('#![allow(dead_code)]\n' + h.get('prefix', '') + text + h.get('suffix', '') + '\n' + h['body'])
         env = dict(os.environ, CARGO_NET_OFFLINE='true', CARGO_TARGET_DIR=os.path.join(d, 'target'))
         try:
-            p = subprocess.run(['cargo', 'kani', '--harness', h['harness']], cwd=d, env=env, stdout=subprocess.PIPE, stderr=subprocess.STDOUT, text=True, timeout=1500)
+            p = subprocess.run(['cargo', 'kani', '--harness', h['harness']], cwd=d, env=env, stdout=subprocess.PIPE, stderr=subprocess.STDOUT, text=True, timeout=240)
             o = p.stdout
         except subprocess.TimeoutExpired:
             o = 'TIMEOUT'
